@@ -25,8 +25,10 @@ def Declared : Fmt → Bytes → Nat → Val → Nat → Prop
         ∧ b = slice d (off + lw) e
   | .listOf lw f, d, off, v, e =>
       ∃ vs, v = .list vs ∧ vs.length = beDec (slice d off (off + lw)) ∧ DeclMany (Declared f) vs d (off + lw) e
-  | .array lw lenBE k _, d, off, v, e =>
+  | .array lw lenBE k itemBE, d, off, v, e =>
       ∃ vs, v = .arr vs ∧ readLen lenBE d off lw = .ok vs.length ∧ e = off + lw + vs.length * k.size
+        ∧ (slice d (off + lw) e).length = vs.length * k.size      -- the items are really there (needs the bounds check)
+        ∧ vs = decodeElems k itemBE vs.length (slice d (off + lw) e)
   | .nested fs, d, off, v, e =>
       ∃ vs e', v = .record vs ∧ e = off + 2 + beDec (slice d off (off + 2))
         ∧ DeclaredList fs (slice d (off + 2) e) 0 vs e' ∧ e' ≤ (slice d (off + 2) e).length
@@ -148,18 +150,20 @@ theorem unpackAddressAt_declared {ipOnly : Bool} {d : Bytes} {off : Nat} {v : Va
 /-! ### the ListOf loop -/
 
 theorem manyAt_bound (u : Bytes → Nat → Except Err (Val × Nat))
-    (hu : ∀ d off v e, off ≤ d.length → u d off = .ok (v, e) → e ≤ d.length) :
-    ∀ n d off vs e, off ≤ d.length → manyAt u n d off = .ok (vs, e) → e ≤ d.length := by
+    (hu : ∀ d off v e, u d off = .ok (v, e) → e ≤ max off d.length) :
+    ∀ n d off vs e, manyAt u n d off = .ok (vs, e) → e ≤ max off d.length := by
   intro n
   induction n with
-  | zero => intro d off vs e hoff h; simp [manyAt] at h; omega
+  | zero => intro d off vs e h; simp [manyAt] at h; omega
   | succ k ih =>
-    intro d off vs e hoff h
+    intro d off vs e h
     simp only [manyAt] at h
     obtain ⟨⟨v, o1⟩, h1, h⟩ := bind_ok h
     obtain ⟨⟨vs', o2⟩, h2, h⟩ := bind_ok h
     cases h
-    exact ih d o1 vs' o2 (hu d off v o1 hoff h1) h2
+    have a := hu d off v o1 h1
+    have b := ih d o1 vs' o2 h2
+    omega
 
 theorem manyAt_declared (u : Bytes → Nat → Except Err (Val × Nat)) (P : Bytes → Nat → Val → Nat → Prop)
     (hu : ∀ d off v e, u d off = .ok (v, e) → P d off v e) :
@@ -175,6 +179,113 @@ theorem manyAt_declared (u : Bytes → Nat → Except Err (Val × Nat)) (P : Byt
     cases h
     have := ih d o1 vs' o2 h2
     exact ⟨by simp [this.1], o1, hu d off v o1 h1, this.2⟩
+
+
+/-! ### prefix stability: decoding a truncated buffer -/
+
+mutual
+/-- no `raw` ("the rest of the buffer") anywhere in the format -/
+def rawFree : Fmt → Bool
+  | .raw => false
+  | .listOf _ f => rawFree f
+  | .nested fs => rawFreeList fs
+  | .tuple fs => rawFreeList fs
+  | _ => true
+def rawFreeList : FmtList → Bool
+  | .nil => true
+  | .cons f fs => rawFree f && rawFreeList fs
+end
+
+theorem slice_take (d : Bytes) (k a b : Nat) (hb : b ≤ k) : slice (d.take k) a b = slice d a b := by
+  unfold slice
+  rw [List.drop_take, List.take_take]
+  congr 1
+  omega
+
+theorem readAt_take {d : Bytes} {k off w : Nat} {b : Bytes} (h : readAt (d.take k) off w = .ok b) :
+    readAt d off w = .ok b ∧ off + w ≤ k := by
+  have h1 := readAt_ok h
+  have hk : off + w ≤ k := by have := h1.1; simp at this; omega
+  have hl : off + w ≤ d.length := by have := h1.1; simp at this; omega
+  refine ⟨?_, hk⟩
+  unfold readAt
+  rw [if_pos hl, h1.2, slice_take _ _ _ _ hk]
+
+theorem readUint_take {d : Bytes} {k off w n : Nat} (h : readUint (d.take k) off w = .ok n) :
+    readUint d off w = .ok n ∧ off + w ≤ k := by
+  unfold readUint at h
+  split at h
+  · rename_i b hb
+    cases h
+    have := readAt_take hb
+    exact ⟨by unfold readUint; rw [this.1], this.2⟩
+  · cases h
+
+theorem readLen_take {be : Bool} {d : Bytes} {k off w n : Nat} (h : readLen be (d.take k) off w = .ok n) :
+    readLen be d off w = .ok n ∧ off + w ≤ k := by
+  unfold readLen at h
+  split at h
+  · rename_i b hb
+    cases h
+    have := readAt_take hb
+    exact ⟨by unfold readLen; rw [this.1], this.2⟩
+  · cases h
+
+theorem length_take_le (d : Bytes) (k : Nat) : (d.take k).length ≤ k ∧ (d.take k).length ≤ d.length := by
+  simp; omega
+
+theorem unpackAddressAt_take {ipOnly : Bool} {d : Bytes} {k off : Nat} {v : Val} {e : Nat}
+    (h : unpackAddressAt ipOnly (d.take k) off = .ok (v, e)) : unpackAddressAt ipOnly d off = .ok (v, e) := by
+  unfold unpackAddressAt at h ⊢
+  obtain ⟨t, ht, h⟩ := bind_ok h
+  rw [(readUint_take ht).1]
+  simp only [bind, Except.bind]
+  split at h
+  · rename_i h1
+    obtain ⟨b, hb, h⟩ := bind_ok h
+    rw [if_pos h1, (readAt_take hb).1]
+    exact h
+  · rename_i h1
+    rw [if_neg h1]
+    split at h
+    · rename_i h3
+      obtain ⟨b, hb, h⟩ := bind_ok h
+      rw [if_pos h3, (readAt_take hb).1]
+      exact h
+    · rename_i h3
+      rw [if_neg h3]
+      split at h
+      · rename_i h2
+        obtain ⟨len, hl, h⟩ := bind_ok h
+        rw [if_pos h2, (readUint_take hl).1]
+        dsimp only at h ⊢
+        split at h
+        · rename_i hv
+          obtain ⟨p, hp, h⟩ := bind_ok h
+          have hpk := (readUint_take hp).2
+          have hs : slice (d.take k) (off + 3) (off + 3 + len) = slice d (off + 3) (off + 3 + len) :=
+            slice_take _ _ _ _ (by omega)
+          rw [hs] at hv h
+          rw [if_pos hv, (readUint_take hp).1]
+          exact h
+        · cases h
+      · cases h
+
+theorem manyAt_take (u : Bytes → Nat → Except Err (Val × Nat)) (k : Nat)
+    (hu : ∀ d off v e, u (d.take k) off = .ok (v, e) → u d off = .ok (v, e)) :
+    ∀ n d off vs e, manyAt u n (d.take k) off = .ok (vs, e) → manyAt u n d off = .ok (vs, e) := by
+  intro n
+  induction n with
+  | zero => intro d off vs e h; simpa [manyAt] using h
+  | succ m ih =>
+    intro d off vs e h
+    simp only [manyAt] at h ⊢
+    obtain ⟨⟨v, o1⟩, h1, h⟩ := bind_ok h
+    obtain ⟨⟨vs', o2⟩, h2, h⟩ := bind_ok h
+    rw [hu d off v o1 h1]
+    simp only [bind, Except.bind]
+    rw [ih d o1 vs' o2 h2]
+    exact h
 
 /-! ### receive path: outcomes -/
 
@@ -302,7 +413,7 @@ theorem inv_rm_prefix (pm : List (Bytes × List Nat)) (newls : List Nat) (p : By
             exact ⟨ls', by simp only [lookupPrefix, if_neg hq]; exact h', hl'⟩
 
 theorem applyOp_inv (key : Option Bytes) (p : Bytes) (l : Nat) (s : DS) (op : RegOp)
-    (hop : op ≠ .rm l ∧ ∀ b, op ≠ .setOpen b) (hopen : s.reg.isOpen = true) (hinv : Reg.Inv s.reg p l) :
+    (hop : op ≠ .rm l ∧ op ≠ .setOpen false) (hopen : s.reg.isOpen = true) (hinv : Reg.Inv s.reg p l) :
     (applyOp key s op).reg.table = s.reg.table ∧ (applyOp key s op).reg.isOpen = true ∧ Reg.Inv (applyOp key s op).reg p l
       ∧ ∃ extra, (applyOp key s op).pending = s.pending ++ extra := by
   cases op with
@@ -345,10 +456,13 @@ theorem applyOp_inv (key : Option Bytes) (p : Bytes) (l : Nat) (s : DS) (op : Re
     · rcases inv_rm_prefix s.reg.prefixMap (s.reg.listeners.filter (· != x)) p l x hne ls h hl with h' | h'
       · left; simpa using h'
       · right; exact h'
-  | setOpen b => exact absurd rfl (hop.2 b)
+  | setOpen b =>
+    cases b with
+    | false => exact absurd rfl hop.2
+    | true => exact ⟨rfl, rfl, hinv, [], by simp [applyOp]⟩
 
 theorem foldl_applyOp_inv (key : Option Bytes) (p : Bytes) (l : Nat) (ops : List RegOp)
-    (hops : ∀ op ∈ ops, op ≠ .rm l ∧ ∀ b, op ≠ .setOpen b) (s : DS) (hopen : s.reg.isOpen = true)
+    (hops : ∀ op ∈ ops, op ≠ .rm l ∧ op ≠ .setOpen false) (s : DS) (hopen : s.reg.isOpen = true)
     (hinv : Reg.Inv s.reg p l) :
     (ops.foldl (applyOp key) s).reg.table = s.reg.table ∧ (ops.foldl (applyOp key) s).reg.isOpen = true
       ∧ Reg.Inv (ops.foldl (applyOp key) s).reg p l ∧ ∃ extra, (ops.foldl (applyOp key) s).pending = s.pending ++ extra := by
